@@ -32,7 +32,8 @@ CONFIG = {
                             'pairs.documented': 110, 'rules.distinct-fired': 70, 'renumbered.compared': 40000, 'tautomers.generated': 1500,
                             'pairs.geminal': 100, 'warm-cache.compared': 30000, 'inputs.quaternized': 600}},
 }
-EXTRA = ['N#Cc1ccc2[nH]ccc2c1', 'N#CC=CO', 'C#CC=CNC', 'N#Cc1ccc(O)cc1', 'OC=CC=C=C', 'N#CC(C)=C(C)O', 'C#Cc1ccc2[nH]c(C)cc2c1', 'N#CC=CC=CN', 'OC(C)=CC=C=CC',
+EXTRA = ['[2H]CO', 'C[NH+]([2H])C', '[2H]C([H])([H])O', '[2H]C=C', 'CC([2H])O', '[3H]CC', '[2H]C([2H])O', 'C[C@H]([2H])O', '[2H]c1ccccc1', 'CC([2H])=O',
+         'N#Cc1ccc2[nH]ccc2c1', 'N#CC=CO', 'C#CC=CNC', 'N#Cc1ccc(O)cc1', 'OC=CC=C=C', 'N#CC(C)=C(C)O', 'C#Cc1ccc2[nH]c(C)cc2c1', 'N#CC=CC=CN', 'OC(C)=CC=C=CC',
          'CN(=O)=O', 'C[N+](=O)[O-]', 'CN=[N+]=[N-]', 'CN=N#N', 'C[S+](C)[O-]', 'CS(C)=O', 'O=[N+]([O-])c1ccccc1', 'C[N+](C)(C)[O-]',
          'CC(=O)[O-].[Na+]', 'C[NH3+].[Cl-]', 'CC(O)=CC', 'CC(=O)CC(C)=O', 'Oc1ccccn1', 'O=c1cccc[nH]1', 'Oc1ncnc2[nH]cnc12', 'NC(=N)N',
          'NC(=[NH2+])N', 'OP(O)(O)=O', '[O-]P([O-])([O-])=O.[Na+].[Na+].[Na+]', 'CC(=O)O[Na]', 'C[Mg]Br', 'CC(=O)O[Cu]OC(C)=O', 'c1ccccc1[Hg]Cl',
